@@ -199,9 +199,11 @@ class Runner:
             for fq in (False, True):
                 with open(os.path.join(self.dir, name + (".fastq" if fq else ".fasta")), "w") as f:
                     f.write(render(recs, fq))
-        for l, ids in data["lists"].items():
+        for nlist, (l, ids) in enumerate(sorted(data["lists"].items())):
             with open(os.path.join(self.dir, l + ".txt"), "w") as f:    # one identifier per line, blanks around some
-                f.write("".join(("  %s\t\n" if k % 2 else "%s\n") % i for k, i in enumerate(sorted(ids))))
+                text = "".join(("  %s\t\n" if k % 2 else "%s\n") % i for k, i in enumerate(sorted(ids)))
+                # a list written by printf / echo -n / some editors does not end with a new line
+                f.write(text[:-1] if nlist % 2 == 0 else text)
         self.byid = {r["id"]: r for r in data["fwd"] + data["rev"]}
         self.mate = {}
         for a, b in zip(data["fwd"], data["rev"]):
